@@ -176,6 +176,51 @@ def gravsoft (text : Str) : Except Err (BaseGrid R) :=
       let (header, grid) := normalizeGravsoft header grid
       plain header grid 0
 
+/-! ### the bytes of a Gravsoft file -/
+
+def isCont (b : UInt8) : Bool := 0x80 ≤ b && b ≤ 0xBF
+
+def cp2 (a b : UInt8) : Nat := (a.toNat - 0xC0) * 64 + (b.toNat - 0x80)
+def cp3 (a b c : UInt8) : Nat := ((a.toNat - 0xE0) * 64 + (b.toNat - 0x80)) * 64 + (c.toNat - 0x80)
+def cp4 (a b c d : UInt8) : Nat :=
+  (((a.toNat - 0xF0) * 64 + (b.toNat - 0x80)) * 64 + (c.toNat - 0x80)) * 64 + (d.toNat - 0x80)
+
+/-- `std::str::from_utf8`: strict UTF-8 (no overlong forms, no surrogates, nothing above
+U+10FFFF); `none` for invalid input.  The fuel is the length of the input. -/
+def utf8DecodeAux : Nat → List UInt8 → Option (List Char)
+  | _, [] => some []
+  | 0, _ :: _ => none
+  | fuel + 1, b0 :: rest =>
+    if b0 < 0x80 then (utf8DecodeAux fuel rest).map (Char.ofNat b0.toNat :: ·)
+    else if 0xC2 ≤ b0 && b0 ≤ 0xDF then
+      match rest with
+      | b1 :: rest => if isCont b1 then (utf8DecodeAux fuel rest).map (Char.ofNat (cp2 b0 b1) :: ·) else none
+      | _ => none
+    else if 0xE0 ≤ b0 && b0 ≤ 0xEF then
+      match rest with
+      | b1 :: b2 :: rest =>
+        let ok1 := if b0 == 0xE0 then 0xA0 ≤ b1 && b1 ≤ 0xBF
+                   else if b0 == 0xED then 0x80 ≤ b1 && b1 ≤ 0x9F else isCont b1
+        if ok1 && isCont b2 then (utf8DecodeAux fuel rest).map (Char.ofNat (cp3 b0 b1 b2) :: ·) else none
+      | _ => none
+    else if 0xF0 ≤ b0 && b0 ≤ 0xF4 then
+      match rest with
+      | b1 :: b2 :: b3 :: rest =>
+        let ok1 := if b0 == 0xF0 then 0x90 ≤ b1 && b1 ≤ 0xBF
+                   else if b0 == 0xF4 then 0x80 ≤ b1 && b1 ≤ 0x8F else isCont b1
+        if ok1 && isCont b2 && isCont b3 then (utf8DecodeAux fuel rest).map (Char.ofNat (cp4 b0 b1 b2 b3) :: ·) else none
+      | _ => none
+    else none
+
+def utf8Decode (b : List UInt8) : Option (List Char) := utf8DecodeAux b.length b
+
+/-- `BaseGrid::gravsoft(buf)`: `BufRead::lines` fails on a line that is not UTF-8 (an I/O error,
+raised before any other check) -/
+def gravsoftBytes (buf : List UInt8) : Except Err (BaseGrid R) :=
+  match utf8Decode buf with
+  | none => .error .io
+  | some text => gravsoft text
+
 /-! ### lists of grids -/
 
 /-- `grids_at` over already evaluated look-ups: `at g margin` for each grid -/
